@@ -47,13 +47,13 @@ func c01Direct(rc *RunCtx, configs int, logCalls bool) {
 		if ci%3 == 2 {
 			x, y := outsider.Pub[1:33], outsider.Pub[33:65]
 			alts := [][]byte{
-				append([]byte{2 + y[31]&1}, x...),                       // compressed
-				append([]byte{3 - y[31]&1}, x...),                       // compressed, other parity (the negated key)
-				append([]byte(nil), x...),                               // x only
-				append(append([]byte(nil), x...), y...),                 // no prefix byte
-				append(append([]byte{6 + y[31]&1}, x...), y...),         // hybrid
-				append(append([]byte{4}, x...), y[:31]...),              // one byte short
-				append(append(append([]byte{4}, x...), y...), 0),        // one byte long
+				append([]byte{2 + y[31]&1}, x...),                // compressed
+				append([]byte{3 - y[31]&1}, x...),                // compressed, other parity (the negated key)
+				append([]byte(nil), x...),                        // x only
+				append(append([]byte(nil), x...), y...),          // no prefix byte
+				append(append([]byte{6 + y[31]&1}, x...), y...),  // hybrid
+				append(append([]byte{4}, x...), y[:31]...),       // one byte short
+				append(append(append([]byte{4}, x...), y...), 0), // one byte long
 			}
 			for _, a := range alts {
 				if r.Intn(2) == 0 {
